@@ -60,3 +60,123 @@ def tv_insn(item):
             d["il"] = il
         out.append(d)
     return out
+
+
+_sigs = {}
+
+
+def sub_sigs(fmt="READ_STATEMENTS"):
+    from . import wf
+    if fmt not in _sigs:
+        _sigs[fmt] = wf.sub_signatures(corpus.compiler(fmt))
+    return _sigs[fmt]
+
+
+def code_identifiers(text):
+    """Identifier tokens of a C text outside comments, strings and character constants (own tokenizer)."""
+    import re
+    out = set()
+    i, n = 0, len(text)
+    while i < n:
+        c = text[i]
+        if text.startswith("//", i):
+            j = text.find("\n", i)
+            i = n if j < 0 else j
+        elif text.startswith("/*", i):
+            j = text.find("*/", i + 2)
+            i = n if j < 0 else j + 2
+        elif c in "\"'":
+            j = i + 1
+            while j < n and text[j] != c:
+                j += 2 if text[j] == "\\" else 1
+            i = j + 1
+        elif c.isalpha() or c == "_":
+            j = i
+            while j < n and (text[j].isalnum() or text[j] == "_"):
+                j += 1
+            out.add(text[i:j])
+            i = j
+        elif c.isdigit():
+            j = i
+            while j < n and (text[j].isalnum() or text[j] == "_"):
+                j += 1
+            i = j
+        else:
+            i += 1
+    return out
+
+
+def wf_insn(item):
+    """item = (name, behs, fmts).  Well-formedness records for every part in every requested layout."""
+    from . import wf
+    from .cref import optable
+    name, behs, fmts = item
+    subs, macs, noped = res()
+    out = []
+    for fmt in fmts:
+        c = compile_insn(name, behs, fmt)
+        if c["status"] != "ok":
+            out.append(dict(key=f"insn:{name}", fmt=fmt, verdict=c["status"], problems=[]))
+            continue
+        for i, (b, il) in enumerate(zip(behs, c["rzil"])):
+            optab = optable(b, [d["code"] for d in subs.values()])
+            probs = wf.check_body(il, optab, sub_sigs(fmt))
+            ids = code_identifiers(il)
+            if "hi" in ids and not c["needs_hi"][i]:
+                probs.append(("c11:needs-hi", "text mentions hi but needs_hi is false"))
+            if "pkt" in ids and not c["needs_pkt"][i]:
+                probs.append(("c11:needs-pkt", "text mentions pkt but needs_pkt is false"))
+            g = c["getter"]
+            if len(g["name"]) != len(behs) or len(g["fcn_decl"]) != len(behs) or len(set(g["name"])) != len(behs):
+                probs.append(("c11:getter", f"getter names {g['name']} for {len(behs)} parts"))
+            elif g["name"][i] not in g["fcn_decl"][i] or not g["name"][i].isidentifier():
+                probs.append(("c11:getter", f"getter {g['name'][i]} vs declaration {g['fcn_decl'][i]}"))
+            out.append(dict(key=f"insn:{name}/{i}", fmt=fmt, verdict="ok", problems=probs, il=il if probs else "",
+                            getter=g["name"][i], c=b))
+    return out
+
+
+def wf_subs(fmt):
+    from . import wf
+    subs, macs, noped = res()
+    out = []
+    optab = {}
+    from .cref import optable
+    for n, text in il_subs(fmt).items():
+        optab = optable(subs[n]["code"] if n in subs else "", [])
+        probs = wf.check_body(text, optab, sub_sigs(fmt), is_sub=True)
+        out.append(dict(key=f"sub:{n}", fmt=fmt, verdict="ok", problems=probs, il=text if probs else "", getter=None))
+    return out
+
+
+def layouts_insn(item):
+    """item = (name, behs, unroll, timeout_ms): both layouts of one instruction -> IL==IL query per part."""
+    from .cref import optable
+    name, behs, unroll, timeout_ms = item
+    subs, macs, noped = res()
+    a = compile_insn(name, behs, "READ_STATEMENTS")
+    b = compile_insn(name, behs, "EXEC_CLASSES")
+    if a["status"] != "ok" or b["status"] != "ok":
+        if a["status"] != b["status"]:
+            return [dict(key=f"insn:{name}", verdict="acceptance-differs", detail=f"{a['status']} vs {b['status']}")]
+        return [dict(key=f"insn:{name}", verdict="both-rejected", detail="")]
+    out = []
+    for i, beh in enumerate(behs):
+        key = f"insn:{name}/{i}"
+        if a["meta"][i] != b["meta"][i]:
+            out.append(dict(key=key, verdict="meta-differs", detail=f"{a['meta'][i]} vs {b['meta'][i]}", c=beh))
+            continue
+        if a["rzil"][i].strip() == "return NOP();" or b["rzil"][i].strip() == "return NOP();":
+            same = a["rzil"][i].strip() == b["rzil"][i].strip()
+            out.append(dict(key=key, verdict="equiv" if same else "value", detail="NOP body", c=beh, time=0))
+            continue
+        optab = optable(beh, [d["code"] for d in subs.values()])
+        t0 = time.time()
+        r = tv.check_il_pair(a["rzil"][i], b["rzil"][i], il_subs("READ_STATEMENTS"), il_subs("EXEC_CLASSES"), optab,
+                             tv.Opts(unroll=unroll, timeout_ms=timeout_ms))
+        d = r.as_dict()
+        d.update(key=key, c=beh, time=round(time.time() - t0, 3))
+        if d["verdict"] != "equiv":
+            d["il_a"], d["il_b"] = a["rzil"][i], b["rzil"][i]
+        out.append(d)
+    return out
